@@ -1037,6 +1037,21 @@ func Run(r *core.Run) {
 		r.Infra("no marker mapping was checked at all")
 	}
 	// ---- bind the Join algebra: TLC runs the spec's LinkAll on recorded chunks ------
+	// records of bundles with input maps (files contributing 2-3 sources) first: they
+	// are the ones that bind the source index bases of the model
+	{
+		var ra, rb []json.RawMessage
+		var sa, sb []*scenario
+		for i, rc := range records {
+			if recScens[i].Family == "inmap" {
+				ra, sa = append(ra, rc), append(sa, recScens[i])
+			} else {
+				rb, sb = append(rb, rc), append(sb, recScens[i])
+			}
+		}
+		r.Set("join_records_with_input_maps", len(ra))
+		records, recScens = append(ra, rb...), append(sa, sb...)
+	}
 	maxRec := r.Pick(60, 600)
 	if len(records) > maxRec {
 		records, recScens = records[:maxRec], recScens[:maxRec]
